@@ -8,7 +8,8 @@ from fractions import Fraction as F
 POOL = [0.0, -0.0, 1.0, -1.0, 2.0, 0.5, -2.5, 3.0, 1e300, -1e300, 5e-324, math.inf, -math.inf, math.nan, 7.25, 100.0,
         1e-10, 1.0000000000000002, -7.0, 0.1,
         1e-17, -1e-10, -1e-17, 1e-5, 4503599627370497.0, 0.9999999999999999, -0.5, 1.5, 1e-30, 710.0,
-        9223372036854775808.0, 1180591621816922931200.0, 18446744073710600192.0, 1267650600228229401496703205376.0]
+        9223372036854775808.0, 1180591621816922931200.0, 18446744073710600192.0, 1267650600228229401496703205376.0,
+        0.49999999999999994]
 
 
 def r32(x):
